@@ -326,7 +326,40 @@ class BuiltinMixin:
         raise Unsupported("format() in this form")
 
     # ------------------------------------------------------------------ methods of built-in types
+    def objdict_method(self, recv, name, args, kwargs, st, node):
+        """obj.__dict__.copy() / .clear() / .update(snapshot) / .get("field")"""
+        from .values import ObjDict, Snapshot
+        obj = recv.obj
+        if name == "copy":
+            # make sure every schema field of the object has a heap map, then remember all of them
+            for c_ in loader.mro(obj.ty.cls):
+                for f_ in C.SCHEMAS.get(c_, {}):
+                    key, ty = self.heap_key(obj.ty.cls, f_)
+                    for k in self.heap_keys_parts(key):
+                        self.heap_array(st, key, k.split("#")[1] if "#" in k else None)
+            return Snapshot(obj, st.heap)
+        if name == "clear":
+            return None
+        if name == "update" and args and isinstance(args[0], Snapshot) and args[0].obj.t.eq(obj.t):
+            snap = args[0]
+            for k, arr in snap.heap.items():
+                if k == "__class__":
+                    continue
+                key = k.split("#")[0]
+                cur = self.heap_array(st, key, k.split("#")[1] if "#" in k else None)
+                if not cur.eq(arr):
+                    self.check_frame(st, key)
+                    st.heap[k] = z3.Store(cur, obj.t, arr[obj.t])
+            return None
+        if name == "get" and args and isinstance(args[0], str):
+            if self.field_type(obj.ty.cls, args[0]) is not None:
+                return self.heap_read(st, obj, args[0])
+            return args[1] if len(args) > 1 else None
+        raise Unsupported(f"__dict__.{name}")
+
     def call_method(self, recv, name, args, kwargs, st, node):
+        if recv.__class__.__name__ == "ObjDict":
+            return self.objdict_method(recv, name, args, kwargs, st, node)
         if isinstance(recv, KwArgs):
             if name == "get":
                 key = args[0]
@@ -442,7 +475,7 @@ class BuiltinMixin:
         raise Unsupported(f"list.{name} as an expression")
 
     def set_method(self, S_, name, args, kwargs, st, node):
-        if name in ("intersection", "union", "difference", "issubset"):
+        if name in ("intersection", "union", "difference", "issubset", "isdisjoint"):
             a = self.as_sset(S_)
             b = self.as_sset(args[0], a.ety)
             x = z3.Const(fresh_name("sx"), sort_of(a.ety))
@@ -452,6 +485,8 @@ class BuiltinMixin:
                 return SSet(a.ety, z3.Lambda([x], z3.Or(a.chi[x], b.chi[x])))
             if name == "difference":
                 return SSet(a.ety, z3.Lambda([x], z3.And(a.chi[x], z3.Not(b.chi[x]))))
+            if name == "isdisjoint":
+                return wrap(TBool, z3.ForAll([x], z3.Not(z3.And(a.chi[x], b.chi[x]))))
             return wrap(TBool, z3.ForAll([x], z3.Implies(a.chi[x], b.chi[x])))
         if name == "copy":
             return S_
